@@ -5,6 +5,11 @@
 (*   tables : the circuit tables as state - every sequence of RemoveTun / Tick / Sweep from a relay  *)
 (*            pair, a rendezvous link, a circuit and an enabled exit socket, with every cell (valid / *)
 (*            garbage body) and every exit-socket datagram of XHeads in between                       *)
+(*   reg    : the registrations as history - every sequence of <= MaxOps table operations over two   *)
+(*            overlays that SHARE a prefix, a third overlay and a sink (each of them may be general,   *)
+(*            may ask for either prefix, may leave), every small datagram in every table state; the    *)
+(*            actions are labelled with their parameters: the driver replays this graph into a real    *)
+(*            Endpoint with real Community objects (harness/c03_reg.py)                                *)
 EXTENDS Receive
 
 CONSTANTS MaxLen, Mode
@@ -22,8 +27,8 @@ MCDesc == << [L0 EXCEPT !.kind = "community", !.prefix = PA, !.handlers = {1, 2}
              [L0 EXCEPT !.kind = "crypto", !.prefix = PT, !.comm = 4],                          \* 5  its crypto endpoint
              L0,                                                                                \* 6  recording sink
              [L0 EXCEPT !.kind = "stats", !.tracked = {PA, PT}] >>                               \* 7  statistics
-MCLids == IF Mode = "layout" THEN {1, 2, 5, 6} ELSE 1..7
-MCPfxs == IF Mode = "layout" THEN {PA, PT} ELSE {PA, PB, PT}
+MCLids == IF Mode = "layout" THEN {1, 2, 5, 6} ELSE IF Mode = "reg" THEN {1, 2, 3, 6} ELSE 1..7
+MCPfxs == IF Mode = "layout" THEN {PA, PT} ELSE IF Mode = "reg" THEN {PA, PB} ELSE {PA, PB, PT}
 
 R(dir, c, to, rdv) == [dir |-> dir, count |-> c, to |-> to, rdv |-> rdv]
 (* Tun(c): the opposite route <<0>> of relay <<2>> does not exist (any more) *)
@@ -50,8 +55,9 @@ PktsOf(h) == IF KnownCell(h)
              ELSE {[len |-> Len(h), head |-> h, enc |-> "none", inner |-> <<>>]}
 SmallHeads == {<<>>, <<0>>, PA, PT, <<0, 0>>, PA \o <<1>>, PA \o <<2>>, PT \o <<0>>, PT \o <<3>>, <<0, 0, 1>>}
 CellHeads == {PT \o <<CellId, c, pl, ea>> \o t : c \in 0..3, pl \in {0, 1}, ea \in {0, 1}, t \in {<<>>, <<3>>}}
+RegHeads == {<<>>, <<0>>, PA, PB, <<0, 0>>, PA \o <<1>>, PA \o <<2>>, PA \o <<3>>, PB \o <<0>>, PB \o <<1>>, <<0, 0, 1>>}
 MCVias == IF Mode = "tables" THEN {<<"udp", FALSE>>} ELSE {<<"udp", FALSE>>, <<"tunnel", FALSE>>, <<"tunnel", TRUE>>}
-MCPkts == UNION {PktsOf(h) : h \in IF Mode = "layout" THEN SmallHeads ELSE IF Mode = "tables" THEN CellHeads
+MCPkts == UNION {PktsOf(h) : h \in IF Mode = "layout" THEN SmallHeads ELSE IF Mode = "reg" THEN RegHeads ELSE IF Mode = "tables" THEN CellHeads
                                     ELSE Heads(MaxLen)}
 
 (* datagrams for an exit socket: per-position alphabets around the values DataChecker looks at, every length up to 13 *)
@@ -93,11 +99,13 @@ MCInit == /\ IF Mode = "tables"
                   \/ desc = [MCDesc EXCEPT ![4].dev = dv] /\ tun \in {TunB, TunR}
                   \/ tun = TunX /\ \E b \in BOOLEAN, v \in BOOLEAN :
                                      desc = [MCDesc EXCEPT ![4].xbt = b, ![4].xipv8 = v, ![4].dev = dv]
+             ELSE IF Mode = "reg" THEN desc = [l \in MCLids |-> MCDesc[l]]
              ELSE desc = MCDesc
           /\ open = TRUE
           /\ last = NoLast /\ nops = 0 /\ nrecv = 0
           /\ IF Mode = "bytes" THEN \E w \in MCWorlds : tab = w[1] /\ tun = w[2]
              ELSE IF Mode = "tables" THEN tab = Lay4
+             ELSE IF Mode = "reg" THEN tab = EmptyTab /\ tun = [TunX EXCEPT !.exits = {}, !.xon = {}]
              ELSE tab = EmptyTab /\ tun = Tun(1)
 MCSpec == MCInit /\ [][Next]_vars
 (* tables mode: deliveries alternate with table actions (consecutive deliveries are what the bytes mode explores) *)
@@ -109,6 +117,20 @@ TExitReceive == /\ last = NoLast /\ nrecv < MaxRecv
                      \E fam \in (IF p \in XFew THEN {"v4", "v6", "v6mapped"} ELSE {"v4"}) : ExitReceive(o, x, p, fam)
 MCNextT == DoRemoveTun \/ DoTick \/ DoSweep \/ TReceive \/ TExitReceive
 MCSpecT == MCInit /\ [][MCNextT]_vars
+
+(* reg mode: table operations first, then one datagram (a delivery does not change the table: the driver hands *)
+(* every datagram to the real endpoint in every table state along the way)                                    *)
+RAdd(l)        == nrecv = 0 /\ AddListener(l)
+RAddPrefix(l, pf) == nrecv = 0 /\ AddPrefixListener(l, pf)
+RRemove(l)     == nrecv = 0 /\ RemoveListener(l)
+RSetOpen(b)    == nrecv = 0 /\ SetOpen(b)
+RReceive(p)    == nrecv < MaxRecv /\ Receive(p, "udp", FALSE)
+MCNextR == \/ \E l \in Lids : RAdd(l)
+           \/ \E l \in Lids, pf \in Pfxs : RAddPrefix(l, pf)
+           \/ \E l \in Lids : RRemove(l)
+           \/ \E b \in BOOLEAN : RSetOpen(b)
+           \/ \E p \in Pkts : RReceive(p)
+MCSpecR == MCInit /\ [][MCNextR]_vars
 
 (* "sometimes" witnesses, expected to be violated (vacuity check of the invariants' antecedents) *)
 NeverHandler == last.via # "none" => \A i \in DOMAIN last.log : last.log[i].h = <<>>
